@@ -57,17 +57,13 @@ Definition expected_layout (fn : N) (H : hashfn) (ins : list bytes) (ns : list N
       Some [cbc_plaintext 16 payload mac; header12 t v e s [] (cbc_record_len 16 payload mac)]
   | 25, [key; payload], [e; s; t; v] => Some [cbc_mac H key e s t v payload]
   | 26, [key; inner; cid], [e; s; v] => Some [cbc_mac_cid H key e s v cid inner]
-  | 27, [key; inner; cid], [e; s; v] => Some [cbc_mac_cid_as_coded H key e s v cid inner]
   | 28, [key; inner; cid], [e; s; v] =>
       let mac := cbc_mac_cid H key e s v cid inner in
-      Some [cbc_plaintext 16 inner mac; header12 ct_tls12_cid v e s cid (cbc_record_len 16 inner mac)]
-  | 29, [key; inner; cid], [e; s; v] =>
-      let mac := cbc_mac_cid_as_coded H key e s v cid inner in
       Some [cbc_plaintext 16 inner mac; header12 ct_tls12_cid v e s cid (cbc_record_len 16 inner mac)]
   | 31, [key; nonce; msg; adata], [M] => Some [ccm_seal key M nonce msg adata]
   | 32, [key; iv; cid; payload], [e; s; t; v; tag] => Some [record12_ccm key iv cid payload e s t v tag]
   | 33, [ek; mk; iv; payload], [e; s; t; v] => Some [record12_cbc H ek mk iv payload e s t v]
-  | 34, [ek; mk; iv; cid; inner], [e; s; v] => Some [record12_cbc_cid_as_coded H ek mk iv cid inner e s v]
+  | 34, [ek; mk; iv; cid; inner], [e; s; v] => Some [record12_cbc_cid H ek mk iv cid inner e s v]
   | 35, [key; blk], [] => Some [aes_encrypt key blk]
   | 30, [key; inner; cid], [e; s; v] =>
       Some [cbc_mac_input_cid e s v cid inner;
@@ -100,18 +96,16 @@ Definition expected_13 (fn : N) (H : hashfn) (ins : list bytes) (ns : list N) : 
   | 55, [hs], [] => Some [master_secret13 H hs]
   | 56, [base], [] => Some [finished_key H base]
   | 61, [exp_master; label], [L] => Some [exporter13 H exp_master label [] (nn L)]
-  | 62, [label; cr; sr], [L] => Some [p_hash H [] (label ++ cr ++ sr) (nn L)]
+  | 63, [label; cr; sr], [L] => Some [p_hash H [] (label ++ cr ++ sr) (nn L)]
   | _, _, _ => None
   end.
 
 (* function codes 70..79: whole-suite record protection (C10Suites) *)
 Definition expected_suite (fn : N) (ins : list bytes) (ns : list N) : option (list bytes) :=
   match fn, ins, ns with
-  | 70, [ms; cr; sr; cid; payload], [id; cl; e; s; t; v] => protect12 false id (nb cl) ms cr sr cid payload e s t v
-  | 71, [ms; cr; sr; cid; payload], [id; cl; e; s; t; v] => protect12 false id (nb cl) ms cr sr cid payload e s t v
-  | 72, [ms; cr; sr; cid; payload], [id; cl; e; s; t; v] => protect12 true id (nb cl) ms cr sr cid payload e s t v
-  | 73, [ms; cr; sr; cid; payload; eiv], [id; cl; e; s; t; v] => live_record12 false id (nb cl) ms cr sr cid payload eiv e s t v
-  | 74, [ms; cr; sr; cid; payload; eiv], [id; cl; e; s; t; v] => live_record12 true id (nb cl) ms cr sr cid payload eiv e s t v
+  | 70, [ms; cr; sr; cid; payload], [id; cl; e; s; t; v] => protect12 id (nb cl) ms cr sr cid payload e s t v
+  | 71, [ms; cr; sr; cid; payload], [id; cl; e; s; t; v] => protect12 id (nb cl) ms cr sr cid payload e s t v
+  | 73, [ms; cr; sr; cid; payload; eiv], [id; cl; e; s; t; v] => live_record12 id (nb cl) ms cr sr cid payload eiv e s t v
   | _, _, _ => None
   end.
 
@@ -122,10 +116,13 @@ Definition expected (c : c10_case) : option (list bytes) :=
   else if fn <? 70 then expected_13 fn (hash_of_code h) ins ns
   else expected_suite fn ins ns.
 
+(* function code 63 is a negative monitor: the observed DTLS 1.3 exporter output must NOT be the
+   value anyone can compute from the hello randoms (TLS 1.2 P_hash keyed with the empty secret);
+   every other code demands equality with the model *)
 Definition case_ok (c : c10_case) : bool :=
-  let '(_, _, _, _, obs) := c in
+  let '(fn, _, _, _, obs) := c in
   match expected c with
-  | Some e => lbytes_eqb e obs
+  | Some e => if fn =? 63 then negb (lbytes_eqb e obs) else lbytes_eqb e obs
   | None => false
   end.
 
